@@ -50,6 +50,21 @@ def jitter(r, rng, amp=250):
 def mutate_residue(atoms, rng):
     """Point mutant of a residue: truncate the side chain and rename (e.g. ASP -> ALA)."""
     resn = atoms[0].resn
+    if resn in ("GLU", "GLN") and rng.random() < 0.5:
+        # a mutant of the same group type one position up the chain (GLU -> ASP, GLN -> ASN): the old CB is
+        # dropped, CG/CD/OE1/OE2(NE2) become CB/CG/OD1/OD2(ND2) - a carboxylate / amide on a shorter side chain
+        ren = {"CG": " CB ", "CD": " CG ", "OE1": " OD1", "OE2": " OD2", "NE2": " ND2"}
+        out = []
+        for a in atoms:
+            n = a.aname()
+            if n == "CB":
+                continue
+            a = a.copy()
+            a.resn = "ASP" if resn == "GLU" else "ASN"
+            if n in ren:
+                a.name = ren[n]
+            out.append(a)
+        return out
     new = MUTATE_TO.get(resn)
     if new is None:
         return None
@@ -139,6 +154,18 @@ def build(rng, base=None):
     desc.update({"k": k, "tags": use})
     nres = max(1, min(len(prot), rng.choice((1, 2, 4))))
     chosen = set(rng.sample(prot, nres))
+    forced = {}
+    tit_ = [i for i in prot if rl[i].key[4] in MUTATE_TO and rl[i].key[4] in ("ASP", "GLU", "HIS", "LYS", "ARG", "TYR", "CYS")]
+    if len(use) == 3 and len(prot) >= 2 and tit_ and rng.random() < 0.4:
+        # labels that first appear out of sorted order: an early residue with the first and third label, a
+        # later ionizable one with the first and second, one of whose states is a point mutant
+        late = rng.choice(tit_)
+        early = [i for i in prot if i < late]
+        if early:
+            e = rng.choice(early)
+            chosen = {e, late}
+            forced = {e: ([use[0], use[2]], "full"), late: ([use[0], use[1]], "mutant")}
+            desc["events"].append("altloc-labels-out-of-order")
     out = []
     first = True
     for i, res in enumerate(rl):
@@ -149,9 +176,16 @@ def build(rng, base=None):
             out.extend(res.atoms)
             continue
         style = rng.choice(("full", "sidechain", "mutant"))
-        for j, t in enumerate(use):
+        # with three states a residue may carry only two of them (A/C here, A/B further down: the labels
+        # then do not first appear in sorted order)
+        use_here = use if len(use) < 3 or rng.random() < 0.5 else [t for t in use if t in rng.sample(list(use), 2)]
+        if i in forced:
+            use_here, style = forced[i]
+        if use_here is not use:
+            desc["events"].append("altloc-subset-%s" % "".join(use_here))
+        for j, t in enumerate(use_here):
             atoms = res.atoms
-            if style == "mutant" and j == rng.randrange(len(use)):
+            if style == "mutant" and j == rng.randrange(len(use_here)):
                 mut = mutate_residue(atoms, rng)
                 if mut:
                     atoms = mut
